@@ -66,6 +66,45 @@ fn silent(secs: u16) -> Option<(Option<u64>, bool)> {
     Some((after, kind_ok))
 }
 
+/// the server goes silent while the client has unsent data queued behind a transport that
+/// takes nothing: (ms from the connection being up to the server's last byte, ms until the
+/// transport is dropped, error kind)
+fn silent_busy(secs: u16) -> Option<(u64, Option<u64>, bool)> {
+    let (mut conn, peer, broker) = open_with(secs, 60, true)?;
+    let t0 = Instant::now(); // the timers were started a moment ago (at Tune)
+    let until = |ms: u64| {
+        let d = Duration::from_millis(ms);
+        if t0.elapsed() < d {
+            std::thread::sleep(d - t0.elapsed());
+        }
+    };
+    until(300);
+    let ch = conn.open_channel(None).ok()?; // the client's last write that the transport takes
+    peer.set_wpolicy(WPolicy::Stall);
+    for _ in 0..2 {
+        let _ = ch.ack_all(); // queued, never written: the tx timer will find output pending
+    }
+    until(450);
+    peer.push_frames(&[AMQPFrame::Heartbeat(0)]); // the server's last byte
+    let last = t0.elapsed().as_millis() as u64;
+    // tx timer: due 1 s after the last write that went out (0.3 s), i.e. 1.3 s and 2.3 s;
+    // rx timer: due 2 s after the last byte, i.e. 2.45 s - a later tick of the wheel. The
+    // I/O thread is kept busy from 2.2 s to 2.6 s (scheduling point 1, hit when it takes a
+    // channel message), so that it finds both due in one pass, the tx entry first.
+    until(2200 * secs as u64);
+    amiquip::verif::set_sched_delay(1, 400_000);
+    let _ = ch.ack_all();
+    std::thread::sleep(Duration::from_millis(150));
+    amiquip::verif::set_sched_delay(1, 0);
+    let dropped = peer.wait(|s| s.dropped, Duration::from_millis(4000 * secs as u64 + 3000));
+    let after = if dropped { Some(t0.elapsed().as_millis() as u64) } else { None };
+    std::mem::forget(ch);
+    let r = with_deadline(move || conn.close(), Duration::from_secs(3));
+    let kind_ok = matches!(r, Some(Err(Error::MissedServerHeartbeats)));
+    broker.stop();
+    Some((last, after, kind_ok))
+}
+
 /// the server sends something every `period` ms: whole heartbeat frames, or single bytes of
 /// a frame that never completes; returns whether the client gave up
 fn live(secs: u16, period: u64, dur_ms: u64, trickle: bool) -> Option<bool> {
@@ -135,6 +174,18 @@ pub fn run(a: &Args) {
         sink.count("intervals");
         sink.push_line(format!("Intervals {} {}", secs, coqfmt::opt(&st, |(r, t)| format!("({}, {})", r, t))), true, format!("intervals {}", secs));
     }
+    // ---- one pass of process_heartbeat_timers over real timers (ms intervals), the thread
+    // having been away for 1.5 h / 2.5 h / 3.4 h with and without output pending; away from
+    // the boundaries by far more than the 100 ms tick of the wheel ----
+    let mut passes = Vec::new();
+    for &h in &[400u64, 600] {
+        for &num in &[15u64, 25, 34] {
+            for &queued in &[0usize, 40] {
+                let away = h * num / 10;
+                passes.push(std::thread::spawn(move || (h, queued, away, amiquip::verif::heartbeat_pass(h, queued, away))));
+            }
+        }
+    }
     // ---- L2: real time, h = 1 s, all scenarios at once; a timing miss is retried twice ----
     let mut handles = Vec::new();
     handles.push(std::thread::spawn(|| {
@@ -157,6 +208,17 @@ pub fn run(a: &Args) {
     }));
     handles.push(std::thread::spawn(|| {
         let mut last = None;
+        for _ in 0..3 {
+            last = silent_busy(1);
+            if let Some((l, Some(t), true)) = last {
+                let due = l + 2000 - 5;
+                if within(t, due.saturating_sub(60), due + 450) { break; }
+            }
+        }
+        last.map(|(l, t, k)| ("silent-busy".to_string(), format!("SilentBusy 1 {} {} {}", l, coqfmt::opt(&t, |x| x.to_string()), coqfmt::b(k))))
+    }));
+    handles.push(std::thread::spawn(|| {
+        let mut last = None;
         for _ in 0..3 { last = live(1, 900, 4600, false); if last == Some(false) { break; } }
         last.map(|f| ("live".to_string(), format!("Live 1 900 4600 {}", coqfmt::b(f))))
     }));
@@ -168,6 +230,16 @@ pub fn run(a: &Args) {
     handles.push(std::thread::spawn(|| {
         zero(2600).map(|(h, f)| ("zero".to_string(), format!("Zero 2600 {} {}", h, f)))
     }));
+    for p in passes {
+        if let Ok((h, queued, away, (missed, ok, outlen))) = p.join() {
+            sink.count("pass");
+            sink.push_line(
+                format!("HbPass {} {} {} {} {} {}", h, queued, away, coqfmt::b(missed), coqfmt::b(ok), outlen),
+                true,
+                format!("pass {} {} {}", h, queued, away),
+            );
+        }
+    }
     for h in handles {
         match h.join() {
             Ok(Some((name, term))) => {
